@@ -111,6 +111,14 @@ def structured_family():
                                                                  Echo(Fld(Var("t"), "unit")), Echo(Fld(Var("t"), "reading")), Echo(Fld(Var("t"), "id"))]),
         Func("main", [], VOID, [Decl(C("Thermometer"), "t", New("Thermometer", I(7), I(21))), Expr(Call("describe", Var("t"))), Echo(MCall(Var("t"), "corrected"))])],
         [dev, sens, cal, thermo])))
+    # 8. a generic class whose static initialiser reads another class's static, instantiated through a plain subclass
+    conf = Class("Conf", "", [Field(P("int"), "base", I(5), static=True)], [], [], [], static=True)
+    gs = Class("GS", "", [Field(P("int"), "s", Bin("+", SFld("Conf", "base"), I(1)), static=True), Field(P("T"), "t")],
+               [Method("get", [], P("int"), [Ret(Var("s"))])], [Ctor([], [])], [], tparams=["T"])
+    sub = Class("SubS", "GS", [], [], [Ctor([], [Super()])], [], base_targs=[P("int")])
+    out.append(("generic static initialiser reading another class's static", Program([
+        Func("main", [], VOID, [Decl(C("SubS"), "x", New("SubS")), Echo(MCall(Var("x"), "get")), Decl(C("GS", [P("str")]), "y", New("GS", targs=[P("str")])), Echo(MCall(Var("y"), "get")),
+                                Echo(SFld("Conf", "base"))])], [conf, gs, sub])))
     return out
 
 
